@@ -4,6 +4,7 @@ package router
 
 import (
 	"net/netip"
+	"time"
 
 	"github.com/mycoria/mycoria/frame"
 	"github.com/mycoria/mycoria/mgr"
@@ -64,3 +65,19 @@ func (r *Router) VerifClearConnStates() {
 
 // VerifSetHandleTraffic switches traffic handling on or off.
 func (r *Router) VerifSetHandleTraffic(on bool) { r.handleTraffic.Store(on) }
+
+// VerifHelloPending returns the routers this router has an own unfinished, unexpired hello
+// key setup with.
+func (r *Router) VerifHelloPending() []netip.Addr {
+	h := r.HelloPing
+	h.activeLock.Lock()
+	defer h.activeLock.Unlock()
+	var out []netip.Addr
+	now := time.Now()
+	for remote, st := range h.active {
+		if st != nil && now.Before(st.expires) && !st.done.Load() {
+			out = append(out, remote)
+		}
+	}
+	return out
+}
